@@ -86,7 +86,7 @@ pub fn run(seed: u64, thorough: bool, out_dir: &std::path::Path, scratch: &std::
     let mut descs: Vec<BTreeMap<String, Vec<Value>>> = (0..shards).map(|_| BTreeMap::new()).collect();
 
     // ---------------- stream 1: real chain histories ------------------------
-    let n_hist = if thorough { 900 } else { 70 };
+    let n_hist = hx_common::shard_share_usize(if thorough { 900 } else { 70 });
     for hi in 0..n_hist {
         let r = std::panic::catch_unwind(std::panic::AssertUnwindSafe(|| {
         let window = *rng.pick(&[(2u64, 10u64), (2, 10), (1, 3), (2, 4), (3, 3), (1, 1)]);
@@ -260,7 +260,7 @@ pub fn run(seed: u64, thorough: bool, out_dir: &std::path::Path, scratch: &std::
     }
 
     // ---------------- stream 2: ProposalTable driven directly ----------------
-    let n_tab = if thorough { 20000 } else { 1600 };
+    let n_tab = hx_common::shard_share_usize(if thorough { 20000 } else { 1600 });
     for ti in 0..n_tab {
         let window = *rng.pick(&[(2u64, 10u64), (1, 3), (2, 4), (3, 3), (1, 1), (4, 9)]);
         let mut table = ProposalTable::new(ProposalWindow(window.0, window.1));
